@@ -14,6 +14,8 @@ import (
 	"sort"
 	"strconv"
 	"strings"
+	"sync"
+	"time"
 )
 
 // ---------------------------------------------------------------- PRNG
@@ -106,6 +108,8 @@ func (l Line) Bytes(i int) []byte {
 // ---------------------------------------------------------------- writer
 
 type Writer struct {
+	mu      sync.Mutex
+	wd      *time.Timer
 	w       *bufio.Writer
 	f       *os.File
 	caseBuf []string
@@ -136,7 +140,34 @@ func NewWriter(path string) *Writer {
 		Stats: &Stats{Tags: map[string]int{}, Hist: map[string]int{}, seen: map[uint64]bool{}}}
 }
 
+// caseTimeout: a case that is still open after this long is a hang of the code under test (an operation
+// that never returns): the case is written out with a `fail hang` line and the driver exits, instead
+// of sitting there until the check's own time limit.  VERIF_CASE_TIMEOUT (seconds) overrides.
+func caseTimeout() time.Duration {
+	if v, err := strconv.Atoi(os.Getenv("VERIF_CASE_TIMEOUT")); err == nil && v > 0 {
+		return time.Duration(v) * time.Second
+	}
+	return 300 * time.Second
+}
+
 func (t *Writer) Case(id, family string, cfg ...string) {
+	t.mu.Lock()
+	defer t.mu.Unlock()
+	if t.wd != nil {
+		t.wd.Stop()
+	}
+	t.wd = time.AfterFunc(caseTimeout(), func() {
+		t.mu.Lock()
+		t.caseBuf = append(t.caseBuf, "fail hang case-timeout # the case did not complete within "+caseTimeout().String()+": an operation of the code under test never returned")
+		t.caseBuf = append(t.caseBuf, "end "+t.caseID)
+		for _, l := range t.caseBuf {
+			t.w.WriteString(l)
+			t.w.WriteByte('\n')
+		}
+		t.w.Flush()
+		t.f.Close()
+		os.Exit(0)
+	})
 	t.caseID = id
 	t.caseBuf = t.caseBuf[:0]
 	t.tags = map[string]bool{}
@@ -145,26 +176,57 @@ func (t *Writer) Case(id, family string, cfg ...string) {
 	t.caseBuf = append(t.caseBuf, strings.TrimSpace("case "+id+" "+family+" "+strings.Join(cfg, " ")))
 }
 
-func (t *Writer) Op(l Line)  { t.ops++; t.caseBuf = append(t.caseBuf, "op "+l.String()) }
-func (t *Writer) Obs(l Line) { t.caseBuf = append(t.caseBuf, "obs "+l.String()) }
+func (t *Writer) Op(l Line) {
+	t.mu.Lock()
+	t.ops++
+	t.caseBuf = append(t.caseBuf, "op "+l.String())
+	t.mu.Unlock()
+}
+
+func (t *Writer) Obs(l Line) {
+	t.mu.Lock()
+	t.caseBuf = append(t.caseBuf, "obs "+l.String())
+	t.mu.Unlock()
+}
 
 // Fail records a direct-oracle failure: the property itself is violated on
 // the implementation at `site` with canonical `sig`.
 func (t *Writer) Fail(site, sig, detail string) {
+	t.mu.Lock()
+	defer t.mu.Unlock()
 	t.Stats.Fails++
 	t.caseBuf = append(t.caseBuf, "fail "+site+" "+sig+" # "+strings.ReplaceAll(detail, "\n", " "))
 }
 
 // Tag marks the current case as having reached a non-trivial branch class.
-func (t *Writer) Tag(tag string) { t.tags[tag] = true; t.nontriv = true }
+func (t *Writer) Tag(tag string) {
+	t.mu.Lock()
+	t.tags[tag] = true
+	t.nontriv = true
+	t.mu.Unlock()
+}
 
 // Note counts a branch class for the statistics without making the case count as non-trivial.
-func (t *Writer) Note(tag string) { t.tags[tag] = true }
+func (t *Writer) Note(tag string) {
+	t.mu.Lock()
+	t.tags[tag] = true
+	t.mu.Unlock()
+}
 
 // Hist counts one occurrence in the input-distribution histogram.
-func (t *Writer) Hist(key string) { t.Stats.Hist[key]++ }
+func (t *Writer) Hist(key string) {
+	t.mu.Lock()
+	t.Stats.Hist[key]++
+	t.mu.Unlock()
+}
 
 func (t *Writer) End() {
+	t.mu.Lock()
+	defer t.mu.Unlock()
+	if t.wd != nil {
+		t.wd.Stop()
+		t.wd = nil
+	}
 	t.caseBuf = append(t.caseBuf, "end "+t.caseID)
 	h := fnv.New64a()
 	for _, l := range t.caseBuf[1 : len(t.caseBuf)-1] {
@@ -197,6 +259,11 @@ func (t *Writer) End() {
 }
 
 func (t *Writer) Close(statsPath string) {
+	t.mu.Lock()
+	defer t.mu.Unlock()
+	if t.wd != nil {
+		t.wd.Stop()
+	}
 	t.w.Flush()
 	t.f.Close()
 	if statsPath != "" {
